@@ -1,5 +1,7 @@
 import LinOp.C12.Proofs
+import LinOp.C12.ProofsWrap
 import LinOp.C12.Algebra
+import LinOp.C12.AlgebraDerive
 import LinOp.Generated.C12Table
 /-!
 C12 — cached results are transparent: answers do not depend on query history.  Property theorems only.
@@ -169,6 +171,82 @@ theorem pop_then_recompute (m : Nat) (k : Key) (f : St → St × Val) (hf : Good
   refine ⟨h.1, h.2, e, ?_⟩
   rw [← e]; exact cached_get s'
 
+/-! ### per-class cache overrides: a wrapper object and the caches of the sub-operators it holds
+
+`WKind.batchRepeat` (BatchRepeatLinearOperator), `WKind.block` (BlockDiag / BlockInterleaved), `WKind.constMul`
+(ConstantMulLinearOperator, constant ≥ 0) over ANY number of sub-operators of ANY modelled single-object class
+(`SubObj.P`).  Histories interleave queries on the wrapper with queries on the held sub-operators (`WQuery.sub`), under
+settings that change arbitrarily. -/
+
+/-- **cache_inv for the wrapper classes, one step**: every entry of the wrapper's cache AND of every sub-operator's cache stays
+a valid answer for its key and object, and the answer is acceptable — for a wrapper query by the wrapper's cache-free
+specification (the wrapper value is tagged valid only if every sub-answer it was assembled from was acceptable for the
+sub-operator, with the orientation / method the hook asked for), for a query on a held sub-operator by that operator's. -/
+theorem wrap_cache_inv (k : WKind) (σ : Settings) (n m : Nat) (q : WQuery) (w : WSt) (hw : WInv m w) :
+    WInv m (wStep k σ n m q w).1 ∧ wAnswerOk m w q (wStep k σ n m q w).2 :=
+  wRun_ok (hooksOk_kind k σ m) σ n q w hw
+
+/-- The same for ANY class whose hooks meet the `HooksOk` contract (each hook keeps all caches valid and returns a valid
+factor of the wrapper's matrix): the base-class cache discipline is transparent over every such override set. -/
+theorem wrap_cache_inv_generic (H : Hooks) (m : Nat) (hH : HooksOk H m) (σ : Settings) (n : Nat) (q : WQuery) (w : WSt)
+    (hw : WInv m w) : WInv m (wRun H σ n m q w).1 ∧ wAnswerOk m w q (wRun H σ n m q w).2 :=
+  wRun_ok hH σ n q w hw
+
+/-- State after a history of (settings, wrapper-or-sub query) pairs. -/
+def wRunHist (k : WKind) (n m : Nat) (h : List (Settings × WQuery)) (w : WSt) : WSt :=
+  h.foldl (fun w e => (wStep k e.1 n m e.2 w).1) w
+
+theorem wrap_runHist_inv (k : WKind) (n m : Nat) (h : List (Settings × WQuery)) (w : WSt) (hw : WInv m w) :
+    WInv m (wRunHist k n m h w) := by
+  induction h generalizing w with
+  | nil => exact hw
+  | cons e t ih => exact ih _ (wrap_cache_inv k e.1 n m e.2 w hw).1
+
+/-- A freshly constructed wrapper over freshly constructed sub-operators. -/
+def wFresh (subs : List SubObj) : WSt := ⟨⟨[], 0, []⟩, subs.map fun o => { o with st := ⟨[], 0, []⟩ }⟩
+
+theorem wFresh_inv (m : Nat) (subs : List SubObj) : WInv m (wFresh subs) := by
+  refine ⟨Inv.nil m, ?_⟩
+  intro o ho
+  simp only [wFresh, List.mem_map] at ho
+  obtain ⟨o', _, rfl⟩ := ho
+  exact Inv.nil _
+
+/-- **history_transparent for the wrapper classes**: after ANY finite history of queries on the wrapper and on its
+sub-operators (which share cache entries with it), the answer to any further query satisfies the same specification as on a
+fresh wrapper over fresh sub-operators. -/
+theorem wrap_history_transparent (k : WKind) (n m : Nat) (subs : List SubObj) (h : List (Settings × WQuery)) (σ : Settings)
+    (q : WQuery) :
+    wAnswerOk m (wRunHist k n m h (wFresh subs)) q (wStep k σ n m q (wRunHist k n m h (wFresh subs))).2 ∧
+    wAnswerOk m (wFresh subs) q (wStep k σ n m q (wFresh subs)).2 :=
+  ⟨(wrap_cache_inv k σ n m q _ (wrap_runHist_inv k n m h _ (wFresh_inv m subs))).2,
+   (wrap_cache_inv k σ n m q _ (wFresh_inv m subs)).2⟩
+
+/-- **exact form**: uniquely determined wrapper answers (dense matrix, Cholesky factor of the requested orientation — also
+through the `_cholesky(upper)` hook —, svd, eigh, numbers) after any history EQUAL the fresh wrapper's. -/
+theorem wrap_history_transparent_exact (k : WKind) (n m : Nat) (subs : List SubObj) (h : List (Settings × WQuery))
+    (σ : Settings) (q : Query) (hq : q.unique = true) :
+    (wStep k σ n m (.self q) (wRunHist k n m h (wFresh subs))).2 = (wStep k σ n m (.self q) (wFresh subs)).2 := by
+  have := wrap_history_transparent k n m subs h σ (.self q)
+  revert this
+  generalize (wStep k σ n m (.self q) (wRunHist k n m h (wFresh subs))).2 = a
+  generalize (wStep k σ n m (.self q) (wFresh subs)).2 = b
+  intro ⟨ha, hb⟩
+  simp only [wAnswerOk] at ha hb
+  cases q <;> simp [Query.unique] at hq <;> cases a <;> simp [answerOk] at ha <;> cases b <;> simp [answerOk] at hb <;>
+    simp_all
+
+/-- Where the Lanczos side write lands (code as it is): `BatchRepeat(Dense).root_inv_decomposition()` in the Lanczos regime
+writes `root_decomposition||` into the BASE operator's cache, not into the wrapper's; for ConstantMul it is the wrapper's. -/
+theorem wrap_side_write_location :
+    let sub : SubObj := ⟨Profile.base, 4, 2, ⟨[], 0, []⟩⟩
+    let σ : Settings := ⟨1, true, true, true⟩
+    let r := (wStep .batchRepeat σ 4 1 (.self (.rootInv .noargs)) (wFresh [sub])).1
+    let c := (wStep .constMul σ 4 1 (.self (.rootInv .noargs)) (wFresh [sub])).1
+    r.self.cache.map (·.1) = [rootInvKey .noargs] ∧ r.subs.map (fun o => o.st.cache.map (·.1)) = [[rootKey .noargs]] ∧
+    c.self.cache.map (·.1) = [rootKey .noargs, rootInvKey .noargs] ∧ c.subs.map (fun o => o.st.cache.map (·.1)) = [[]] := by
+  decide
+
 /-! ### derived operators -/
 
 /-- **derived_fresh**: derivations other than the two transplants start from an empty cache, which satisfies
@@ -292,6 +370,52 @@ theorem transplant_valid_catrows {R : Type} [CommRing R] {n o : Type} [Fintype n
     fromBlocks E 0 (B * Rinv) G * (fromBlocks E 0 (B * Rinv) G)ᵀ = fromBlocks A Bᵀ B D :=
   Algebra.transplant_valid_catrows A E Rinv B D G hE hER hG
 
+/-! ### the other derivations: when would carrying a factorization over be valid? -/
+
+open Matrix in
+/-- **mul by a constant** `c = s²`: the root scaled by `s` is a root of `c·A` (what `ConstantMul.root_decomposition` — model
+`Hooks.constMul`, `rootOv` —, `Chol._mul_constant`, `Triangular._mul_constant` build); nothing else is carried over. -/
+theorem derive_scale_valid {R : Type} [CommRing R] {n k : Type} [Fintype n] [Fintype k] [DecidableEq n]
+    (A : Matrix n n R) (L : Matrix n k R) (s c : R) (hA : L * Lᵀ = A) (hs : s * s = c) : (s • L) * (s • L)ᵀ = c • A :=
+  Algebra.derive_scale A L s c hA hs
+
+open Matrix in
+/-- **transpose**: a root of `A` is a root of `Aᵀ`. -/
+theorem derive_transpose_valid {R : Type} [CommRing R] {n k : Type} [Fintype n] [Fintype k] [DecidableEq n]
+    (A : Matrix n n R) (L : Matrix n k R) (hA : L * Lᵀ = A) : L * Lᵀ = Aᵀ :=
+  Algebra.derive_transpose A L hA
+
+open Matrix in
+/-- **`__getitem__`** of a principal submatrix: the ROW-selected root `L[I, :]` is a root of `A[I, I]`. -/
+theorem derive_getitem_valid {R : Type} [CommRing R] {n k r : Type} [Fintype n] [Fintype k] [Fintype r] [DecidableEq n]
+    (L : Matrix n k R) (f : r → n) : (L.submatrix f id) * (L.submatrix f id)ᵀ = (L * Lᵀ).submatrix f f :=
+  Algebra.derive_getitem L f
+
+open Matrix in
+/-- **`add_jitter` / `add_diagonal`**: the parent's root is a root of `A + diag(d)` if AND ONLY IF `d = 0`: the derived operator
+must start from an empty cache (`derived_fresh`; `expand` / `unsqueeze` act entrywise on batches of such identities). -/
+theorem derive_add_diagonal_valid_iff {R : Type} [CommRing R] {n k : Type} [Fintype n] [Fintype k] [DecidableEq n]
+    (A : Matrix n n R) (L : Matrix n k R) (d : n → R) (hA : L * Lᵀ = A) : L * Lᵀ = A + diagonal d ↔ d = 0 :=
+  Algebra.derive_add_diagonal_iff A L d hA
+
+/-- D30, `_partial` form over the model: the transplant of `add_low_rank` / `cat_rows` is valid whenever root and inverse root
+have the same exact provenance; with `max_cholesky_size` above `n` on a fresh base-class object that is the case (Cholesky /
+Cholesky) — the full claim "valid for every history and settings" is FALSE (`transplant_lanczos_counterexample`,
+`transplant_catRows_lanczos_counterexample`, `transplant_lowrank_unpaired_counterexample`). -/
+theorem transplant_fresh_cholesky_regime_partial (σ : Settings) (n m m' : Nat) (hσ : n ≤ σ.mcs) :
+    Inv m' (addLowRank Profile.base σ n m m' ⟨[], 0, []⟩).2 ∧ Inv m' (catRows Profile.base σ n m m' ⟨[], 0, []⟩).2 := by
+  have hc : chooseRootMethod σ n [] = "cholesky" := by
+    simp [chooseRootMethod, Cache.hasFirst, hσ]
+  constructor
+  · apply (transplant_addLowRank Profile.base σ n m m' ⟨[], 0, []⟩ (Inv.nil m)).2
+    simp [rootDecomp, rootInvDecomp, Profile.base, cachedCall, Cache.get, rootCompute, rootInvCompute, Call.kwNone, Call.method,
+      rootKey, rootInvKey, Cache.put, chooseRootMethod, Cache.hasFirst, Key.first, hσ, rootBody, rootInvBody, cholesky, cholLower,
+      cholKey, St.log, paired]
+  · apply (transplant_catRows Profile.base σ n m m' ⟨[], 0, []⟩ (Inv.nil m)).2
+    simp [rootDecomp, rootInvDecomp, Profile.base, cachedCall, Cache.get, rootCompute, rootInvCompute, Call.noargs, Call.method,
+      rootKey, rootInvKey, Cache.put, chooseRootMethod, Cache.hasFirst, Key.first, hσ, rootBody, rootInvBody, cholesky, cholLower,
+      cholKey, St.log, paired]
+
 /-! ### obligations over the table regenerated from /repo on every run -/
 open LinOp.Generated.C12
 
@@ -360,6 +484,61 @@ theorem gen_readers_reviewed :
 theorem gen_cache_names_known :
     decos.all (fun d => ["cholesky", "root_decomposition", "root_inv_decomposition", "diagonalization", "svd", "size",
       "kernel_diag", "covar_mat", "chol_cap_mat", "fn:to_dense", "fn:_diagonal", "fn:inverse"].contains d.name) = true := by
+  decide +kernel
+
+/-- **Every cache WRITE site keys on every argument its value depends on.**
+
+Dependence analysis (done by the translator on the current source, stated here):
+* a decorated function `f(self, p₁ … pₖ)` is called by the memoize wrapper `g(self, *args, **kwargs)` with exactly the
+  `args` / `kwargs` that form the key (`gen_memoize_key_shape`), so with `ignore_args = False` every parameter is in the key,
+  positionally by value and by keyword by NAME AND VALUE; with `ignore_args = True` nothing is — then no parameter may occur in
+  the body at all (`uses` = parameters occurring anywhere in the body; a parameter that does not occur cannot influence the value);
+* a direct `add_to_cache(target, name, value, *key_args, **key_kwargs)`: `deps` = parameters of the enclosing function in the
+  backward slice of `value` (names in the expression, closed under every local assignment / loop / with target of the function and
+  under the tests of the `if` / `while` / `for` statements enclosing the call — a flow-insensitive over-approximation), `keyed` =
+  parameters occurring in the key arguments.  If the target is an object CONSTRUCTED in that function (`targetFresh`: `add_low_rank`,
+  `cat_rows`) the parameters are part of what the new object denotes and need not be keyed; a write into `self` must have
+  `deps ⊆ keyed`, with ONE reviewed exception: the Lanczos side write of `_root_inv_decomposition` stores, under the argument-free key,
+  a root computed from `initial_vectors` — its VALUE depends on the start vectors, its VALIDITY (being a root of this matrix) does not
+  (modelled as `Prov.lanczos run`; the harness query `rootinv_iv` exercises it). -/
+theorem gen_write_keys_cover_dependences :
+    decos.all (fun d => !d.ignoreArgs || d.uses.isEmpty) = true ∧
+    decos.all (fun d => d.uses.all d.params.contains) = true ∧
+    (sites.filter (fun s => s.api == "add_to_cache" && !s.targetFresh)).all
+      (fun s => s.target == "self" &&
+        (s.deps.all s.keyed.contains || (s.fn, s.name, s.deps) == ("_root_inv_decomposition", "root_decomposition", ["initial_vectors"]))) = true ∧
+    (sites.filter (fun s => s.api == "add_to_cache" && s.targetFresh)).all
+      (fun s => s.target != "self" && (s.fn == "add_low_rank" || s.fn == "cat_rows")) = true ∧
+    (sites.filter (fun s => s.api != "add_to_cache")).all (fun s => s.deps.isEmpty && s.keyed.isEmpty) = true := by
+  decide +kernel
+
+/-- **The key really is `(name, args, pickle(kwargs))`** (args by value, kwargs by name and value) at every store / load / membership /
+pop of `utils/memoize.py`, `kwargs_pkl` is always `pickle.dumps(kwargs)` of the full dict, and the wrappers pass the method exactly the
+arguments they key on.  (The Lean `Key.full name args kwargs` / `Key.bare name` mirrors this table.) -/
+theorem gen_memoize_key_shape :
+    memoKeys.map (fun k => (k.fn, k.role, k.expr)) =
+      [("add_to_cache", "call:_add_to_cache", "obj,name,val,*args,kwargs_pkl=pickle.dumps(kwargs)"),
+       ("add_to_cache", "kwargs_pkl", "pickle.dumps(kwargs)"),
+       ("get_from_cache", "call:_get_from_cache", "obj,name,*args,kwargs_pkl=pickle.dumps(kwargs)"),
+       ("get_from_cache", "kwargs_pkl", "pickle.dumps(kwargs)"),
+       ("pop_from_cache", "pop", "(name, args, pickle.dumps(kwargs))"),
+       ("pop_from_cache_ignore_args", "pop", "name"),
+       ("_cached.g", "signature", "self,*args,**kwargs"),
+       ("_cached.g", "kwargs_pkl", "pickle.dumps(kwargs)"),
+       ("_cached.g", "call:_is_in_cache", "self,cache_name,*args,kwargs_pkl=kwargs_pkl"),
+       ("_cached.g", "call:_add_to_cache", "self,cache_name,method(self, *args, **kwargs),*args,kwargs_pkl=kwargs_pkl"),
+       ("_cached.g", "call:_get_from_cache", "self,cache_name,*args,kwargs_pkl=kwargs_pkl"),
+       ("_cached_ignore_args.g", "signature", "self,*args,**kwargs"),
+       ("_cached_ignore_args.g", "call:_is_in_cache_ignore_args", "self,cache_name"),
+       ("_cached_ignore_args.g", "call:_add_to_cache_ignore_args", "self,cache_name,method(self, *args, **kwargs)"),
+       ("_cached_ignore_args.g", "call:_get_from_cache_ignore_args", "self,cache_name"),
+       ("_add_to_cache", "store", "(name, args, kwargs_pkl)"),
+       ("_get_from_cache", "load", "(name, args, kwargs_pkl)"),
+       ("_is_in_cache", "in", "(name, args, kwargs_pkl)"),
+       ("_add_to_cache_ignore_args", "store", "name"),
+       ("_get_from_cache_ignore_args", "load", "name"),
+       ("_is_in_cache_ignore_args", "in", "name"),
+       ("_is_in_cache_ignore_all_args", "in-derived", "name in [x[0] for x in obj._memoize_cache.keys()]")] := by
   decide +kernel
 
 /-! ### non-vacuity -/
